@@ -50,7 +50,64 @@ var (
 	verifErrU  = errors.New("verif: unacceptable error")
 	verifErrA  = errors.New("verif: acceptable error")
 	verifErrFB = errors.New("verif: fallback result")
+	// what a request returns when it went through a nested / downstream breaker that is open
+	verifErrSUW = fmt.Errorf("verif: rpc downstream.Get: %w", ErrServiceUnavailable)
 )
+
+// outcomes of a request (Model.v: outcome)
+const (
+	outOk = iota
+	outErrU
+	outErrA
+	outPanic
+	outErrSU    // returns ErrServiceUnavailable itself
+	outErrSUW   // returns the %w-wrapped ErrServiceUnavailable (acceptable to the caller's predicate)
+	outCanceled // returns context.Canceled although the call's context is live (acceptable to the caller's predicate)
+	outDeadline // returns context.DeadlineExceeded
+	outErrFB    // returns the very value the fallback returns
+	outPanicSU  // panic(ErrServiceUnavailable)
+)
+
+// verifOutcome is the tail of every request callback: return the error / raise the panic.
+func verifOutcome(outc int64, pv any) error {
+	switch outc {
+	case outErrU:
+		return verifErrU
+	case outErrA:
+		return verifErrA
+	case outPanic:
+		panic(pv)
+	case outErrSU:
+		return ErrServiceUnavailable
+	case outErrSUW:
+		return verifErrSUW
+	case outCanceled:
+		return context.Canceled
+	case outDeadline:
+		return context.DeadlineExceeded
+	case outErrFB:
+		return verifErrFB
+	case outPanicSU:
+		panic(ErrServiceUnavailable)
+	}
+	return nil
+}
+
+// the caller's predicate of DoWithAcceptable / DoWithFallbackAcceptable
+func verifAcceptable(err error) bool {
+	return err == nil || err == verifErrA || err == verifErrSUW || err == context.Canceled
+}
+
+// class of a recovered panic value
+func verifPanicClass(r, pv any) int64 {
+	if r == pv {
+		return resPanic
+	}
+	if e, ok := r.(error); ok && e == ErrServiceUnavailable {
+		return resPanicSU
+	}
+	return resOther
+}
 
 type verifPanic struct{ n int }
 
@@ -63,6 +120,9 @@ const (
 	resFallback
 	resCtx
 	resOther
+	resErrSUW
+	resDeadline
+	resPanicSU
 )
 
 func verifClass(err error) int64 {
@@ -79,6 +139,10 @@ func verifClass(err error) int64 {
 		return resFallback
 	case context.Canceled:
 		return resCtx
+	case verifErrSUW:
+		return resErrSUW
+	case context.DeadlineExceeded:
+		return resDeadline
 	}
 	return resOther
 }
@@ -188,7 +252,7 @@ func verifRunCase(c verifC01Case) (out verifC01Out) {
 
 	cancelled, cancel := context.WithCancel(context.Background())
 	cancel()
-	acceptable := func(err error) bool { return err == nil || err == verifErrA }
+	acceptable := verifAcceptable
 
 	for i, k := range c.Calls {
 		entry, ctxm, outc, gap, dur, m := k[0], k[1], k[2], k[3], k[4], k[5]
@@ -201,15 +265,7 @@ func verifRunCase(c verifC01Case) (out verifC01Out) {
 		req := func() error {
 			reqRuns++
 			timex.AdvanceFake(time.Duration(dur))
-			switch outc {
-			case 1:
-				return verifErrU
-			case 2:
-				return verifErrA
-			case 3:
-				panic(pv)
-			}
-			return nil
+			return verifOutcome(outc, pv)
 		}
 		fb := func(err error) error {
 			fbRuns++
@@ -226,11 +282,7 @@ func verifRunCase(c verifC01Case) (out verifC01Out) {
 		func() {
 			defer func() {
 				if r := recover(); r != nil {
-					if r == any(pv) {
-						res = resPanic
-					} else {
-						res = resOther
-					}
+					res = verifPanicClass(r, any(pv))
 				}
 			}()
 			var err error
